@@ -9,7 +9,7 @@ from engine.flow import enum_paths, path_calls, path_facts, path_stmts
 from engine.mutate import Mutant
 from engine.report import Result
 from engine.symb import Expander
-from rules.ufunc import ARR, UfuncAnchors, dot_method_units, out_target_scaled, registry, rule_type
+from rules.ufunc import ARR, UfuncAnchors, dot_method_units, out_target_scaled, registry, rule_type, unit_rule_results
 from spec import ufunc_signatures as SPEC
 
 TECHNIQUE = "typed table check of _ufunc_registry against ufunc homogeneity signatures (unit rules interpreted as monomials) plus path rules in __array_ufunc__: rescale direction, coefficient application, reduce/trig/power gates"
@@ -180,17 +180,18 @@ def coefficient(repo, res, a: UfuncAnchors):
     # out= is scaled as well (typestate along every path through the wrap-up block; rules/ufunc.py)
     ok, where, conds = out_target_scaled(a)
     res.check(ok, "out-scaled", where, "on a path where out= is given and the simplification coefficient differs from 1 the out target is never multiplied by it: the caller's buffer keeps the unscaled numbers while the returned value is scaled", "multiply(out, mul, out=out) on every such path", conds, path=conds, rid=r3)
-    # `mul` definitions come from the unit rule
-    defs = []
-    for n in ast.walk(fn.node):
-        if isinstance(n, ast.Assign):
-            t = n.targets[0]
-            if isinstance(t, ast.Tuple) and t.elts and norm(t.elts[0]) == "mul":
-                defs.append(norm(n.value))
-            elif norm(t) == "mul":
-                defs.append(norm(n.value))
-    want = {"_apply_power_mapping(ufunc, u, inp.size, inp.shape, kwargs)", "self._ufunc_registry[ufunc](u)", "unit_operator(u0, u1)", "1"}
-    res.check(set(defs) <= want and "unit_operator(u0, u1)" in defs, "mul-defs", fn.where(), "the coefficient must be the one returned by the unit rule", sorted(want), sorted(defs), rid=r3)
+    # `mul` definitions come from the unit rule (element 0 of its result), the power mapping, or are the literal 1
+    bad_defs, n_rule = [], 0
+    for node, kind, detail in unit_rule_results(a, "mul"):
+        if kind == "rule" and detail[0] == 0 and detail[1] in (["u"], ["u0", "u1"]):
+            n_rule += 1
+        elif kind == "power-mapping" and detail[0] == 0 and detail[1] == {"ufunc": "ufunc", "in_unit": "u", "in_size": "inp.size", "in_shape": "inp.shape", "input_kwarg_dict": "kwargs"}:
+            pass
+        elif kind == "literal" and detail == 1:
+            pass
+        else:
+            bad_defs.append((kind, detail))
+    res.check(not bad_defs and n_rule >= 2, "mul-defs", fn.where(), "the coefficient must be element 0 of what the ufunc's unit rule returned for the operand unit(s) (or of the power mapping for reductions), or the literal 1", "rule(u) | rule(u0, u1) | _apply_power_mapping(ufunc, u, inp.size, inp.shape, kwargs) | 1", bad_defs, rid=r3)
     # dimensionless-ratio shortcut
     sc = [n for n in ast.walk(ast.Module(body=a.binary, type_ignores=[])) if isinstance(n, ast.If) and norm(n.test) == "u0.dimensions == u1.dimensions"]
     ok = False
@@ -207,12 +208,26 @@ def coefficient(repo, res, a: UfuncAnchors):
 def reductions(repo, res, a: UfuncAnchors):
     r4 = res.rule("C04-R4", "reduce of multiply/divide uses the exponent map n -> n and n -> 2-n", floor=4)
     fn = a.fn
-    sel = [st for st in a.unary if isinstance(st, ast.If) and "_apply_power_mapping" in norm(st)]
-    ok = False
-    if len(sel) == 1:
-        st = sel[0]
-        ok = norm(st.test) in ("ufunc in (multiply, divide) and method == 'reduce'",) and norm(st.body[0]) == "mul, unit = _apply_power_mapping(ufunc, u, inp.size, inp.shape, kwargs)" and norm(st.orelse[0]) == "mul, unit = self._ufunc_registry[ufunc](u)"
-    res.check(ok, "selector", fn.where(sel[0]) if sel else fn.where(), "the power mapping is used exactly for reduce of multiply/divide, the registry rule otherwise", found=norm(sel[0].test) if sel else None, rid=r4)
+    # path rule over the unary branch: the pair (mul, unit) comes from the power mapping exactly on the paths where the
+    # ufunc is multiply/divide AND the call form is reduce; from the registry rule on every other path
+    from engine.sem import atomise, canon_facts, split_ifexp
+
+    kinds = {id(node): kind for node, kind, detail in unit_rule_results(a, "mul")}
+    ok, found, n_pm, n_rule = True, [], 0, 0
+    for p in enum_paths(atomise(split_ifexp(list(a.unary)))):
+        got = [kinds[id(ev[1])] for ev in p if ev[0] == "stmt" and id(ev[1]) in kinds]
+        if p[-1][0] == "raise":
+            continue
+        facts = canon_facts(p, fn)
+        is_reduce_product = ("ufunc in (multiply, divide)", True) in facts and ("method == 'reduce'", True) in facts
+        found.append((sorted(t for t, tr in facts if "ufunc in" in t or "method" in t), got))
+        if is_reduce_product:
+            n_pm += 1
+            ok &= got == ["power-mapping"]
+        else:
+            n_rule += 1
+            ok &= got == ["rule"]
+    res.check(ok and n_pm >= 1 and n_rule >= 1, "selector", fn.where(), "the power mapping is used exactly for reduce of multiply/divide, the registry rule otherwise", "power-mapping iff (ufunc in (multiply, divide)) and method == 'reduce'", found[:6], rid=r4)
     mod = repo.mod(ARR)
     pm = mod.assign("POWER_MAPPING")
     got = {}
@@ -224,40 +239,42 @@ def reductions(repo, res, a: UfuncAnchors):
     pf = mod.func("_apply_power_mapping")
     res.fn(pf)
     ufunc, in_unit, in_size, in_shape, kw = pf.params
-    # which axis value does the function use?  kw.get("axis", D) (directly or through a local): D is what an
-    # absent keyword means, and ufunc.reduce reduces over axis 0 when no axis is given (NumPy: "axis=0").
+    from engine.sem import summarise
+
+    sums = [x for x in summarise(pf) if x.kind != "fall" or True]
+    if not sums:
+        raise AnalysisError(f"{pf.where()}: no path")
+    # which axis value does the function use?  kw.get("axis", D): D is what an absent keyword means, and
+    # ufunc.reduce reduces over axis 0 when no axis is given (NumPy: "axis=0").
     gets = [c for c in ast.walk(pf.node) if isinstance(c, ast.Call) and isinstance(c.func, ast.Attribute) and c.func.attr == "get" and norm(c.func.value) == kw and c.args and isinstance(c.args[0], ast.Constant) and c.args[0].value == "axis"]
-    subs = [n for n in ast.walk(pf.node) if isinstance(n, ast.Subscript) and norm(n.value) == kw and isinstance(n.slice, ast.Constant) and n.slice.value == "axis"]
     if not gets:
         raise AnalysisError(f"{pf.where()}: lookup of the axis keyword not found")
     defaults = {norm(c.args[1]) if len(c.args) > 1 else "None" for c in gets}
     res.check(defaults == {"0"}, "default-axis", pf.where(gets[0]), "ufunc.reduce without an axis argument reduces over axis 0 (not over all elements): np.multiply.reduce(a) of a 2-d array multiplies shape[0] factors, so treating an absent axis like axis=None attaches unit**size", "kwargs.get('axis', 0)", sorted(defaults), rid=r4)
+    ax = f"{kw}.get('axis', {sorted(defaults)[0]})"
+    want_all = f"(1, {in_unit} ** POWER_MAPPING[{ufunc}]({in_size}))"
+    want_axis = f"(1, {in_unit} ** POWER_MAPPING[{ufunc}]({in_shape}[{ax}]))"
     ok = True
     found = []
     n_axis = n_all = 0
-    for p in enum_paths(pf.body):
-        end = p[-1]
-        unit_def = None
-        local = {}
-        for ev in p:
-            if ev[0] == "stmt" and isinstance(ev[1], ast.Assign) and isinstance(ev[1].targets[0], ast.Name):
-                local[ev[1].targets[0].id] = norm(ev[1].value)
-                if ev[1].targets[0].id == "unit":
-                    unit_def = norm(ev[1].value)
-        found.append(unit_def)
-        facts = [(t, tr) for t, tr, _ in path_facts(p)]
-        axis_names = {k for k, v in local.items() if any(v == norm(g) for g in gets)} | {norm(g) for g in gets} | {norm(x) for x in subs}
-        known_axis = any((t in {f"{a_} is not None" for a_ in axis_names} and tr) or (t in {f"{a_} is None" for a_ in axis_names} and not tr) for t, tr in facts)
-        pm = ("power_map(", ")")
-        if known_axis:
+    for x in sums:
+        found.append((sorted(x.facts), x.value))
+        if x.kind != "return":
+            ok = False
+            continue
+        axis_none = x.has(f"{ax} is None", True)
+        axis_given = x.has(f"{ax} is None", False)
+        scalar = x.has(in_shape, False)
+        if axis_given and not scalar:
             n_axis += 1
-            ok &= unit_def is not None and any(unit_def.replace("(", "").replace(")", "") == f"{in_unit} ** power_map{in_shape}[{a_}]".replace("(", "").replace(")", "") for a_ in axis_names)
-        else:
+            ok &= x.value == want_axis
+        elif axis_none or scalar:
             n_all += 1
-            ok &= unit_def is not None and unit_def.replace("(", "").replace(")", "") == f"{in_unit} ** power_map{in_size}"
-        ok &= end[0] == "return" and norm(end[1].value) == "(mul, unit)"
-    ok &= any(norm(s) == f"power_map = POWER_MAPPING[{ufunc}]" for s in pf.body) and n_axis >= 1 and n_all >= 1
-    res.check(ok, "exponent", pf.where(), "the exponent is the number of reduced elements (length of the reduced axis, or size for axis=None) mapped through POWER_MAPPING[ufunc]", found=found, rid=r4)
+            ok &= x.value == want_all
+        else:
+            ok = False
+    ok &= n_axis >= 1 and n_all >= 1
+    res.check(ok, "exponent", pf.where(), "the exponent is the number of reduced elements (length of the reduced axis, or size for axis=None / 0-d input) mapped through POWER_MAPPING[ufunc], and the coefficient is 1", [want_axis, want_all], found, rid=r4)
 
 
 def trig(repo, res, a: UfuncAnchors):
